@@ -20,14 +20,17 @@ func GenZone(t *rapid.T, apex string, maxOwners int, alphabet []string) *Zone {
 	if rapid.Bool().Draw(t, "apexA") {
 		z.Owners[z.Apex][dns.TypeA] = true
 	}
+	// RFC 4592 allows an asterisk label anywhere in an owner name; only a leftmost one makes a wildcard. Owners below
+	// an asterisk label turn "*.<parent>" into an empty non-terminal - a source of synthesis that exists and holds nothing
+	interior := rapid.IntRange(0, 2).Draw(t, "interiorasterisk") == 0
 	n := rapid.IntRange(0, maxOwners).Draw(t, "nowners")
 	for i := 0; i < n; i++ {
 		depth := rapid.SampledFrom([]int{1, 1, 1, 2, 2, 3}).Draw(t, "depth")
 		var ls []string
 		for d := 0; d < depth; d++ {
 			l := rapid.SampledFrom(alphabet).Draw(t, "label")
-			if l == "*" && d != 0 {
-				l = "a" // wildcard label only leftmost
+			if l == "*" && d != 0 && !interior {
+				l = "a"
 			}
 			ls = append(ls, l)
 		}
